@@ -186,7 +186,7 @@ def gen_run(rng: random.Random, quick: bool, force=None):
         c["fail_skip"] = force["fail_skip"]
     c["fork_at"] = force.get("fork_at", rng.choice([None, None, 1, 2]))
     c["fork_kind"] = force.get("fork_kind", rng.choice(["deepcopy", "state_dict"]))
-    c.update({kx: force[kx] for kx in ("cond", "scales", "xmag", "diag", "msqrt", "ydev0") if kx in force})
+    c.update({kx: force[kx] for kx in ("cond", "scales", "xmag", "diag", "msqrt", "ydev0", "jac_bias") if kx in force})
     if c["extreme"] == "tiny-scale":
         c["scales"] = [1e-6, 1e-7, 1e5] if c["dtype"] == "float64" else [1e-3, 1e-4, 1e2]
     if c["extreme"] == "S-illcond":
@@ -304,7 +304,7 @@ def corpus_runs(quick: bool):
         specs.append(dict(NICE, filter=flt, n=3, m=1, p=2, dtype="float64", nonlinear=False, T=3, store="Q",
                           pass_seq=[(0, 1), (1, 1), (0, 1)], t_mode="none", vary_qr=False, prop_store=True, k_seq=[1, 1, "none"]))
         specs.append(dict(NICE, filter=flt, n=2, m=2, p=2, dtype="float64", nonlinear=True, T=3, store="none", t_mode="mixed",
-                          vary_qr=False, prop_jac=True, subclass=False, k_seq=[1, "none", 2]))
+                          vary_qr=False, prop_jac=True, jac_bias=True, subclass=False, k_seq=[1, "none", 2]))
     # special sizes: p = 2n+1 (number of sigma points), n = m = p = 3, n = 1 with p = 3, all ones
     for flt in ("ekf", "ukf"):
         for (nn, mm, pp_) in ((2, 2, 5), (3, 3, 3), (1, 3, 3), (1, 1, 1), (6, 6, 6)):
@@ -440,8 +440,9 @@ def materialise_run(c):
                     out[j2][i] -= e_
             return out
         rel = rng.choice([1e-6, 1e-7, 1e-9])
-        d["P0"], d["Qc"], d["Rc"] = skew(d["P0"], rel), skew(d["Qc"], rel), skew(d["Rc"], rel)
-        d["Qdecoy"], d["Rdecoy"] = skew(d["Qdecoy"], rel), skew(d["Rdecoy"], rel)
+        # only the PRIOR covariance: in a real history it is the filter's own previous output, which is symmetric only up to
+        # rounding; Q and R are the user's and stay exactly symmetric (the property's domain)
+        d["P0"] = skew(d["P0"], rel)
     d["t_reset"] = rng.choice([1, 3, 7]) if c["t_mode"] == "reset" else 0
     d["delta"] = uf.round_dt(uf.vec_mag(rng, p, [0.5, 2.0]), dt)
     if ext == "Q-zero":
@@ -650,6 +651,7 @@ def run_gen(ctx: Ctx, c, lines, metas, verbose=False):
     mode = c.get("arg_mode", "fresh")
     prm = {kx: v for kx, v in d["prm"].items()}          # current system parameters (drift in place in `inplace` mode)
     sub = bool(c.get("subclass")) and not c.get("alias_sys")
+    jac_bias = None
     if c.get("alias_sys"):
         model = uf.fam_class().Alias(prm, dt)
         model.f_mode, model.g_mode = c["alias_sys"]
@@ -657,6 +659,12 @@ def run_gen(ctx: Ctx, c, lines, metas, verbose=False):
     elif c.get("prop_jac") and not sub:
         model = uf.fam_class().PropJac(prm, dt)
         ctx.count("run.user-Jacobian-properties")
+        if c["filter"] == "ekf" and c.get("jac_bias", c["seed"] % 2 == 0):
+            # the user's C property deliberately differs from the autograd Jacobian: the documented recursion uses model.C.
+            # (not expressible in the driver's family: these calls are judged by the 50-digit oracle only)
+            jac_bias = [[0.25 * ((i + 2 * j2) % 3 - 1) for j2 in range(n)] for i in range(p)]
+            model.dC = T(jac_bias)
+            ctx.count("run.user-C-property-with-offset")
     else:
         model = (uf.fam_class().Sub if sub else uf.fam_class())(prm, dt)
     if sub:
@@ -769,6 +777,7 @@ def run_gen(ctx: Ctx, c, lines, metas, verbose=False):
             t_eff = float(int(model.systime) % tmod) if tval is None else float(tval % tmod)
         prmE = eff(prm)
         fam = uf.MpFam(prmE, t_eff)
+        fam.dC = jac_bias
         # measurement: predicted observation (50 digits) + deviation scaled by the innovation spread
         try:
             ref0 = uf.mp_kalman_predict(fam, ul, Ql, Rl, xl, Pl)
@@ -940,6 +949,12 @@ def run_gen(ctx: Ctx, c, lines, metas, verbose=False):
                 ctx.fail(stepcase, f"psd: {c['filter']} call {j}: covariance asymmetry {asym:.3e}, min eigenvalue {lam:.3e} "
                                    f"(tol {tolPs:.3e})")
         # ---- model line (a)
+        if jac_bias is not None:
+            xl, Pl = x2.detach().double().tolist(), P2.detach().double().tolist()
+            in_asym, in_lam = sym_defect(P2.detach())
+            prev_tolP = tolPs
+            yield j
+            continue
         lines.append(call_line(c, prmE, kspec, kval, t_eff, ul, yl, ctorQl, ctorRl, Ql if st["pass_q"] else None,
                                Rl if st["pass_r"] else None, xl, Pl))
         # a prior / predicted covariance that is singular at rounding level: the exact model may find no Cholesky
